@@ -3,6 +3,7 @@ independent oracle for implementation, model and extracted specification."""
 import hashlib
 import os
 import re
+from tables import read_src as _read_src
 from hv import hx, V, REPO
 from props import c18_ws_common as common
 
@@ -27,7 +28,7 @@ def digest(m):
 def constants_check(ctx):
     """Translator-for-data tie: the IVs and round constants in sha1.rs are the ones in the model (and so, by the
     Examples in props/C18_sha1.v, the RFC's)."""
-    src = open(os.path.join(REPO, 'humphrey-ws/src/util/sha1.rs'), encoding='utf-8').read()
+    src = _read_src(os.path.join(REPO, 'humphrey-ws/src/util/sha1.rs'))
     got = [int(x, 16) for x in re.findall(r'0x([0-9A-Fa-f]{8})\b', src)]
     want = [0x67452301, 0xEFCDAB89, 0x98BADCFE, 0x10325476, 0xC3D2E1F0, 0x5A827999, 0x6ED9EBA1, 0x8F1BBCDC, 0xCA62C1D6]
     model_src = open(os.path.join(V, 'coq/theories/Sha1.v'), encoding='utf-8').read()
